@@ -78,6 +78,19 @@ GATE_STALE = ['OK', 'ERROR', 'AT+GMR: 1.0', '!8 Err: Unknown command', 'garbage 
               'Version 3.0.2', 'firmware version 3.0.2']     # none contains the text "Firmware Version "
 
 
+def stored_version(v):
+    """The dotted number at the end of whatever the object keeps as its version, as a padded triple; None
+    when it keeps nothing that reads as one (how the version is stored is not part of the property)."""
+    import re
+    if not isinstance(v, str):
+        return None
+    m = re.search(r'(\d+(?:\.\d+){0,2})\s*$', v)
+    if not m:
+        return None
+    t = tuple(int(x) for x in m.group(1).split('.'))
+    return (t + (0, 0, 0))[:3]
+
+
 def spec_of(scn, port):
     for b in scn['world']['boards']:
         if b['port'] == port:
@@ -146,7 +159,8 @@ def check(scn, hist):
                             out.append(V(PROP, 'connect_converse', m, oid,
                                          'prompt, fault-free handshake with supported %s: returned %r, err=%r'
                                          % (_descr(spec), rec['ret'], a['err'])))
-                        elif triple(a['version'] or '') != fw3(spec):
+                        elif stored_version(a['version']) not in (None, fw3(spec)):
+                            # (only when the object keeps something that reads as a dotted version number)
                             out.append(V(PROP, 'connect_converse', m, oid, 'stored version %r for board %r'
                                          % (a['version'], spec['fw'])))
             elif m == 'min_version':
